@@ -208,6 +208,12 @@ theorem C13_system_refines_spec (h : List (Nat × OOp)) (objs : Sys) (hok : Sys.
     ((Sys.run objs h).1.map (fun p => (p.1, p.2.map OOut.abs)), (Sys.run objs h).2.map Rd.abs) = SSys.run (objs.map Rd.abs) h :=
   Sys.run_refines h objs hok ha
 
+/-- the observables the correspondence run prints after every step of every `multi` history — `Position()` and `Length()` of every
+    live object, computed by each backend in its own way (u64 arithmetic on the wrapped cursor for slices) — ARE the relative
+    cursor and the size of what the object exposes: the comparison with the C++ objects is a comparison of `Rd.abs` -/
+theorem C13_printed_observables_are_abs (r : Rd) (hr : r.Good) : r.pos = r.abs.pos ∧ r.len = r.abs.data.length ∧ r.pos ≤ r.len :=
+  Rd.observables r hr
+
 /-- **identical observations in memory and in a file, for whole systems**: the same interleaved history — with every slice, slice of
     a slice and cursor slice it creates — on a memory reader and on a file reader over the same bytes gives the same answers, and
     corresponding objects expose the same bytes at the same positions.  (Copy construction is excluded: a copied file reader reopens
